@@ -666,6 +666,23 @@ fn fmt_rv(v: &RV) -> String {
 
 fn oracle_case(case: &Case, obs: &[&str], ids: &[&str], st: &mut OracleStats, case_no: usize, line0: usize) {
     let mut last_id: HashMap<(usize, u32, u32), String> = HashMap::new();
+    fn core_expr(e: &E) -> bool {
+        match e {
+            E::C(_) | E::In(_) | E::Call(_) => true,
+            E::Add(a, b) | E::Min(a, b) | E::Max(a, b) => core_expr(a) && core_expr(b),
+            E::If(c, a, b) => core_expr(c) && core_expr(a) && core_expr(b),
+            _ => false,
+        }
+    }
+    let core_like = case.prog.nodes.iter().all(|(k, e)| *k == Kind::Plain && core_expr(e));
+    let nn = case.prog.nodes.len();
+    let mut snapshot: Vec<Option<Vec<u32>>> = vec![None; nn];
+    let mut last_valid: Vec<usize> = vec![0; nn];
+    let mut writes: Vec<(usize, usize, bool)> = vec![];
+    let mut clock = 0usize;
+    let mut changed_execs: Vec<Vec<usize>> = vec![vec![]; nn];
+    let mut prev_val: Vec<Option<RV>> = vec![None; nn];
+    let mut prev_dur: Vec<Option<u8>> = vec![None; nn];
     let mut inputs: Vec<u32> = case.init.iter().map(|x| x.0).collect();
     let mut durs: Vec<u8> = case.init.iter().map(|x| x.1).collect();
     let mut cells = vec![0u32; case.prog.ncells];
@@ -700,6 +717,61 @@ fn oracle_case(case: &Case, obs: &[&str], ids: &[&str], st: &mut OracleStats, ca
         }
         if evs.iter().any(|e| e.starts_with('V') || e.starts_with('D') || e.starts_with('R')) {
             nontrivial = true;
+        }
+        // C03 monitor (core fragment): every WillExecute must be justified by a change recorded by
+        // this harness since the function's last validation (its last X or V event): an input field
+        // it read was written, or a function it called re-executed with a value differing from its
+        // previous one (or the write changed a durability: "became less durable").
+        if core_like && !injected {
+            for e in &evs {
+                clock += 1;
+                let (tag, rest) = e.split_at(1);
+                let Ok(x) = rest.parse::<usize>() else { continue };
+                if tag == "V" {
+                    last_valid[x] = clock;
+                } else if tag == "X" {
+                    let now = Ref::new(Env { prog: &case.prog, inputs: &inputs, cells: &cells }).node(x);
+                    if let Some(snap) = &snapshot[x] {
+                        let (reads, callees) = Ref::new(Env { prog: &case.prog, inputs: snap, cells: &cells }).direct_deps(x);
+                        let since = last_valid[x];
+                        let ok = writes.iter().any(|w| w.0 > since && (reads.contains(&w.1) || w.2))
+                            || callees.iter().any(|d| changed_execs[*d].iter().any(|t| *t > since));
+                        if !ok {
+                            fail(st, i, format!("key=unjustified-execution node {} re-executed although no input it read (fields {:?}) was written and no function it called ({:?}) produced a different value since its last validation", x, reads, callees));
+                        } else {
+                            *st.hist.entry("exec-justified".into()).or_default() += 1;
+                        }
+                    }
+                    // durability of the new result = minimum over everything it (transitively) read
+                    fn node_dur(prog: &Prog, inputs: &[u32], cells: &[u32], durs: &[u8], q: usize) -> u8 {
+                        let (reads, callees) = Ref::new(Env { prog, inputs, cells }).direct_deps(q);
+                        let mut d = 3u8;
+                        for r in reads {
+                            d = d.min(durs[r]);
+                        }
+                        for c in callees {
+                            d = d.min(node_dur(prog, inputs, cells, durs, c));
+                        }
+                        d
+                    }
+                    let now_dur = node_dur(&case.prog, &inputs, &cells, &durs, x);
+                    if prev_val[x].as_ref() != Some(&now) || prev_dur[x].is_some_and(|p| now_dur < p) {
+                        changed_execs[x].push(clock);
+                    }
+                    prev_dur[x] = Some(now_dur);
+                    prev_val[x] = Some(now);
+                    snapshot[x] = Some(inputs.clone());
+                    last_valid[x] = clock;
+                }
+            }
+        }
+        if let Op::Set(idx, _, d) = op {
+            // (time, field, durability explicitly given — a durability change may justify
+            // re-execution of readers: "became less durable")
+            if durs[*idx] != 3 {
+                clock += 1;
+                writes.push((clock, *idx, d.is_some()));
+            }
         }
         if !cyclic && matches!(op, Op::Acc(_)) {
             for e in &evs {
